@@ -612,7 +612,11 @@ def chan_units():
             d["IN_TOK"] = pname
         D += ["%s=%s" % (k, v) for k, v in sorted(d.items())]
         members = kw.get("members", ())
-        lifts = {"body": Lift(src, loc, rules=chan_rules("VX_THROW_NOW", members), loops=kw.get("loops"), expect=kw.get("expect", 1), which=kw.get("which", 0))}
+        rules = chan_rules("VX_THROW_NOW", members)
+        if kind == "C_CHILD_START":
+            # every member access of start() is an obligation "the operation state is still alive" (specs/C03/chan.h child_start)
+            rules = rules + [Sub(r"\bself->(\w+)\b(?!\s*\()", r"VX_MEMBER(self, \1)", None)]
+        lifts = {"body": Lift(src, loc, rules=rules, loops=kw.get("loops"), expect=kw.get("expect", 1), which=kw.get("which", 0))}
         funcs = ["%s: %s" % (src, name)]
         if kw.get("let"):
             v = LET_VIS[kw["let"]]
